@@ -84,22 +84,19 @@ Record step_hyps (s : fsys) (sv : sview) : Prop := {
 }.
 
 (* the walk to "/c1/.../cn" is inside the covered domain: proper names, neither model runs out of its fuel
-   (WalkBudget.v gives size conditions for that), and - Lstat mode only - not the corner [lstat_corner] of C04
-   (a final link reached after exactly 40 links; vacuous for the following modes) *)
+   (WalkBudget.v gives size conditions for that); ELOOP outcomes are covered *)
 Definition path_ok (s : fsys) (sv : sview) (slm : slmode) (cs : list str) : Prop :=
   Forall good_comp cs /\
   klookup s sv false (follow_of slm) (abs_path cs) <> WErr EFUEL /\
-  sr_err (search_node s (sv_view sv) (abs_path cs) slm) <> EFuel /\
-  ~ lstat_corner (f_heap s) slm (search_node s (sv_view sv) (abs_path cs) slm)
-                 (klookup s sv false (follow_of slm) (abs_path cs)).
+  sr_err (search_node s (sv_view sv) (abs_path cs) slm) <> EFuel.
 
 Lemma resolve (s : fsys) (sv : sview) (slm : slmode) (cs : list str) :
   step_hyps s sv -> path_ok s sv slm cs ->
   walk_rel (f_heap s) (v_user (sv_view sv)) (v_root (sv_view sv)) (precise_of slm)
     (search_node s (sv_view sv) (abs_path cs) slm) (klookup s sv false (follow_of slm) (abs_path cs)).
 Proof.
-  intros [Hos Hadm Hwf Hlc Hrd] (Hg & Hk1 & Hnf & Hnc).
-  destruct (sym_bridge_lookup s sv slm cs Hos Hwf Hlc Hrd Hg Hk1 Hnf) as [B|B]; [exact B|contradiction].
+  intros [Hos Hadm Hwf Hlc Hrd] (Hg & Hk1 & Hnf).
+  exact (sym_bridge_lookup s sv slm cs Hos Hwf Hlc Hrd Hg Hk1 Hnf).
 Qed.
 
 Lemma werr_cases (e : ekind) (k : N) :
@@ -143,7 +140,7 @@ Theorem step_stat (s : fsys) (sv : sview) (slm : slmode) (cs : list str) :
   stat_sim (proj_res Linux (stat_gen slm s (sv_view sv) (abs_path cs)))
            (k_stat (follow_of slm) s sv (abs_path cs)).
 Proof.
-  intros H Hp. pose proof (resolve s sv slm cs H Hp) as R. destruct Hp as (_ & _ & Hnf & _).
+  intros H Hp. pose proof (resolve s sv slm cs H Hp) as R. destruct Hp as (_ & _ & Hnf).
   unfold stat_gen, k_stat.
   destruct (klookup s sv false (follow_of slm) (abs_path cs)) as [par kind name n|par name md| |e]; cbn [walk_rel] in R.
   - destruct R as (R1 & R2 & R3 & _). rewrite R2, R1. cbn [is_file_exists negb].
@@ -160,7 +157,7 @@ Theorem step_readlink (s : fsys) (sv : sview) (cs : list str) :
   step_hyps s sv -> path_ok s sv SlLstat cs ->
   proj_res Linux (readlink s (sv_view sv) (abs_path cs)) = k_readlink s sv (abs_path cs).
 Proof.
-  intros H Hp. pose proof (resolve s sv SlLstat cs H Hp) as R. destruct Hp as (_ & _ & Hnf & _).
+  intros H Hp. pose proof (resolve s sv SlLstat cs H Hp) as R. destruct Hp as (_ & _ & Hnf).
   unfold readlink, k_readlink. change (follow_of SlLstat) with false in R.
   unfold win. rewrite (sh_os _ _ H). cbn [ostype_eqb].
   destruct (klookup s sv false false (abs_path cs)) as [par kind name n|par name md| |e]; cbn [walk_rel] in R.
@@ -177,7 +174,7 @@ Theorem step_chtimes (s : fsys) (sv : sview) (cs : list str) :
   step_hyps s sv -> path_ok s sv SlEval cs ->
   proj_res Linux (chtimes s (sv_view sv) (abs_path cs)) = k_utimes s sv (abs_path cs).
 Proof.
-  intros H Hp. pose proof (resolve s sv SlEval cs H Hp) as R. destruct Hp as (_ & _ & Hnf & _).
+  intros H Hp. pose proof (resolve s sv SlEval cs H Hp) as R. destruct Hp as (_ & _ & Hnf).
   unfold chtimes, k_utimes. change (follow_of SlEval) with true in R.
   destruct (klookup s sv false true (abs_path cs)) as [par kind name n|par name md| |e]; cbn [walk_rel] in R.
   - destruct R as (R1 & R2 & R3 & _). rewrite R2, R1. cbn [is_file_exists negb].
@@ -209,8 +206,7 @@ Proof.
       destruct (check_permission m OpenLookup (v_user v)); [|subst r; discriminate He].
       apply (IH vol n pi1 sl saved r c); auto. unfold node_is_dir. rewrite Hgn. reflexivity.
     + destruct (pi_is_last pi1); subst r; [cbn in Hc; injection Hc as <-; congruence|discriminate He].
-    + destruct (Nat.ltb slCountMax (S sl)); [subst r; discriminate He|].
-      rewrite Hslm, andb_false_r in Hr.
+    + rewrite Hslm, andb_false_r in Hr. destruct (Nat.ltb slCountMax (S sl)); [subst r; discriminate He|].
       destruct (pi_replace_part (v_os v) pi1 t) as [reset pi2].
       eapply (IH vol (if reset then vol else p0)); eauto. destruct reset; assumption.
 Qed.
@@ -232,7 +228,7 @@ Theorem step_chmod (s : fsys) (sv : sview) (cs : list str) (mode : N) :
   (fst (chmod s (sv_view sv) (abs_path cs) mode), proj_res Linux (snd (chmod s (sv_view sv) (abs_path cs) mode)))
   = k_chmod s sv (abs_path cs) mode.
 Proof.
-  intros H Hp. pose proof (resolve s sv SlEval cs H Hp) as R. destruct Hp as (_ & _ & Hnf & _).
+  intros H Hp. pose proof (resolve s sv SlEval cs H Hp) as R. destruct Hp as (_ & _ & Hnf).
   pose proof (resolve_nosym s sv SlEval cs) as Hns.
   unfold chmod, k_chmod. change (follow_of SlEval) with true in R.
   destruct (klookup s sv false true (abs_path cs)) as [par kind name n|par name md| |e]; cbn [walk_rel] in R.
@@ -252,7 +248,7 @@ Theorem step_truncate (s : fsys) (sv : sview) (cs : list str) (size : Z) :
   (fst (truncate s (sv_view sv) (abs_path cs) size), proj_res Linux (snd (truncate s (sv_view sv) (abs_path cs) size)))
   = k_truncate s sv (abs_path cs) size.
 Proof.
-  intros H Hp. pose proof (resolve s sv SlEval cs H Hp) as R. destruct Hp as (_ & _ & Hnf & _).
+  intros H Hp. pose proof (resolve s sv SlEval cs H Hp) as R. destruct Hp as (_ & _ & Hnf).
   unfold truncate, k_truncate, win. rewrite (sh_os _ _ H). cbn [ostype_eqb negb]. rewrite andb_true_r.
   destruct (Z.ltb size 0) eqn:Hsz; [reflexivity|].
   change (follow_of SlEval) with true in R.
@@ -338,7 +334,7 @@ Theorem step_mkdir (s : fsys) (sv : sview) (w : list str) (cl : str) (perm : N) 
   (fst (mkdir s (sv_view sv) p perm), proj_res Linux (snd (mkdir s (sv_view sv) p perm))) = k_mkdir s sv p perm.
 Proof.
   intros H Hp Hsg p. pose proof (resolve s sv SlLstat (w ++ [cl]) H Hp) as R.
-  destruct Hp as (Hg & Hk1 & Hnf & _). change (follow_of SlLstat) with false in R, Hk1. change (precise_of SlLstat) with true in R.
+  destruct Hp as (Hg & Hk1 & Hnf). change (follow_of SlLstat) with false in R, Hk1. change (precise_of SlLstat) with true in R.
   destruct (klookup_pm s sv false w cl Hg Hk1) as (Hkn & Hkg & Hpm).
   unfold p. rewrite (mkdir_nonempty s (sv_view sv) _ perm (abs_path_nonempty _)). cbv zeta.
   unfold k_mkdir. rewrite Hpm. unfold no_setgid_parent in Hsg.
@@ -367,7 +363,7 @@ Theorem step_symlink (s : fsys) (sv : sview) (w : list str) (cl : str) (t : str)
   = k_symlink s sv (clean Linux t) p.
 Proof.
   intros H Hp Hsg p. pose proof (resolve s sv SlLstat (w ++ [cl]) H Hp) as R.
-  destruct Hp as (Hg & Hk1 & Hnf & _). change (follow_of SlLstat) with false in R, Hk1. change (precise_of SlLstat) with true in R.
+  destruct Hp as (Hg & Hk1 & Hnf). change (follow_of SlLstat) with false in R, Hk1. change (precise_of SlLstat) with true in R.
   destruct (klookup_pm s sv false w cl Hg Hk1) as (Hkn & Hkg & Hpm).
   unfold p, symlink, k_symlink. rewrite Hpm. unfold no_setgid_parent in Hsg.
   pose proof (klookup_final s sv false (w ++ [cl]) Hg) as Hfin.
@@ -446,7 +442,7 @@ Theorem step_remove (s : fsys) (sv : sview) (w : list str) (cl : str) :
   (fst (remove s (sv_view sv) p), proj_res Linux (snd (remove s (sv_view sv) p))) = go_remove s sv p.
 Proof.
   intros H Hp Hss p. pose proof (resolve s sv SlLstat (w ++ [cl]) H Hp) as R.
-  destruct Hp as (Hg & Hk1 & Hnf & _). change (follow_of SlLstat) with false in R, Hk1. change (precise_of SlLstat) with true in R.
+  destruct Hp as (Hg & Hk1 & Hnf). change (follow_of SlLstat) with false in R, Hk1. change (precise_of SlLstat) with true in R.
   destruct (klookup_pm s sv false w cl Hg Hk1) as (Hkn & Hkg & Hpm).
   unfold p, remove, go_remove, k_unlink, k_rmdir. rewrite Hpm.
   pose proof (klookup_final s sv false (w ++ [cl]) Hg) as Hfin.
@@ -490,7 +486,7 @@ Theorem step_link (s : fsys) (sv : sview) (co w : list str) (cl : str) :
 Proof.
   intros H Hpo Hp Hns o p.
   pose proof (resolve s sv SlLstat co H Hpo) as Ro. pose proof (resolve s sv SlLstat (w ++ [cl]) H Hp) as R.
-  destruct Hpo as (Hgo & _ & Hnfo & _). destruct Hp as (Hg & Hk1 & Hnf & _).
+  destruct Hpo as (Hgo & _ & Hnfo). destruct Hp as (Hg & Hk1 & Hnf).
   change (follow_of SlLstat) with false in Ro, R, Hk1. change (precise_of SlLstat) with true in Ro, R.
   destruct (klookup_pm s sv false w cl Hg Hk1) as (Hkn & Hkg & Hpm).
   unfold o, p, link, k_link, win. rewrite (sh_os _ _ H). cbn [ostype_eqb]. unfold not_symlink in Hns.
@@ -540,7 +536,7 @@ Theorem step_chown (s : fsys) (sv : sview) (slm : slmode) (cs : list str) (uid g
    proj_res Linux (snd (chown_gen slm s (sv_view sv) (abs_path cs) uid gid)))
   = k_chown (follow_of slm) s sv (abs_path cs) uid gid.
 Proof.
-  intros H Hp Hns. pose proof (resolve s sv slm cs H Hp) as R. destruct Hp as (_ & _ & Hnf & _).
+  intros H Hp Hns. pose proof (resolve s sv slm cs H Hp) as R. destruct Hp as (_ & _ & Hnf).
   unfold chown_gen, k_chown, win, no_setid in *. rewrite (sh_os _ _ H), (sh_admin _ _ H). cbn [ostype_eqb negb].
   rewrite andb_false_r. cbn [orb].
   destruct (klookup s sv false (follow_of slm) (abs_path cs)) as [par kind name n|par name md| |e]; cbn [walk_rel] in R.
@@ -569,7 +565,7 @@ Theorem step_chdir (s : fsys) (sv : sview) (cs : list str) :
   | _, _ => False
   end.
 Proof.
-  intros H Hp. pose proof (resolve s sv SlEval cs H Hp) as R. destruct Hp as (_ & _ & Hnf & _).
+  intros H Hp. pose proof (resolve s sv SlEval cs H Hp) as R. destruct Hp as (_ & _ & Hnf).
   unfold chdir, k_chdir, win. rewrite (sh_os _ _ H). cbn [ostype_eqb]. change (follow_of SlEval) with true in R.
   destruct (klookup s sv false true (abs_path cs)) as [par kind name n|par name md| |e]; cbn [walk_rel] in R.
   - destruct R as (R1 & R2 & R3 & _). rewrite R2, R1. cbn [is_file_exists negb]. unfold node_is_dir.
@@ -631,7 +627,7 @@ Theorem step_read_file (s : fsys) (sv : sview) (cs : list str) :
   step_hyps s sv -> path_ok s sv SlEval cs ->
   proj_res Linux (read_file s (sv_view sv) (abs_path cs)) = go_read_file s sv (abs_path cs).
 Proof.
-  intros H Hp. pose proof (resolve s sv SlEval cs H Hp) as R. destruct Hp as (_ & _ & Hnf & _).
+  intros H Hp. pose proof (resolve s sv SlEval cs H Hp) as R. destruct Hp as (_ & _ & Hnf).
   pose proof (resolve_nosym s sv SlEval cs) as Hns.
   unfold read_file, go_read_file. rewrite (open_rdonly _ _ _ _ _ (abs_path_nonempty cs)). cbv zeta.
   unfold k_open. change (decode_flags 0) with (OF 0 false false false false). cbv iota beta zeta.
@@ -703,7 +699,7 @@ Theorem step_read_dir (s : fsys) (sv : sview) (cs : list str) :
   step_hyps s sv -> path_ok s sv SlEval cs -> ptr_valid (f_heap s) ->
   obs_sim (proj_res Linux (read_dir s (sv_view sv) (abs_path cs))) (go_read_dir s sv (abs_path cs)).
 Proof.
-  intros H Hp Hpv. pose proof (resolve s sv SlEval cs H Hp) as R. destruct Hp as (_ & _ & Hnf & _).
+  intros H Hp Hpv. pose proof (resolve s sv SlEval cs H Hp) as R. destruct Hp as (_ & _ & Hnf).
   pose proof (resolve_nosym s sv SlEval cs) as Hns.
   unfold read_dir, go_read_dir. rewrite (open_rdonly _ _ _ _ _ (abs_path_nonempty cs)). cbv zeta.
   unfold k_open. change (decode_flags 0) with (OF 0 false false false false). cbv iota beta zeta.
@@ -884,7 +880,7 @@ Section WriteFile.
   Proof.
     intros Hpm Hcase. pose proof (resolve s sv SlEval (w ++ [cl]) H Hp) as R.
     pose proof (resolve_nosym s sv SlEval (w ++ [cl])) as Hns.
-    destruct Hp0 as (Hg & _). destruct Hp as (_ & Hk1 & Hnf & _).
+    destruct Hp0 as (Hg & _). destruct Hp as (_ & Hk1 & Hnf).
     change (follow_of SlEval) with true in R, Hk1. change (precise_of SlEval) with true in R.
     pose proof (klookup_final s sv true (w ++ [cl]) Hg) as Hfin.
     pose proof (sh_admin _ _ H) as Hadm.
@@ -939,7 +935,7 @@ Section WriteFile.
   Theorem step_write_file :
     (fst (write_file s v p data perm), proj_res Linux (snd (write_file s v p data perm))) = go_write_file s sv p data perm.
   Proof.
-    destruct Hp0 as (Hg & Hk0 & _ & _). change (follow_of SlLstat) with false in Hk0.
+    destruct Hp0 as (Hg & Hk0 & _). change (follow_of SlLstat) with false in Hk0.
     destruct (klookup_pm s sv false w cl Hg Hk0) as (_ & _ & Hpm).
     apply (write_file_main _ Hpm).
     destruct (klookup s sv false false p) as [par0 k0 n0 c0|par0 n0 md0|a b c d|e0] eqn:HK0.
@@ -1002,7 +998,7 @@ Theorem step_rename_new (s : fsys) (sv : sview) (wo : list str) (clo : str) (wn 
 Proof.
   intros H Hpo Hpn Hnd HKn o n.
   pose proof (resolve s sv SlLstat (wo ++ [clo]) H Hpo) as Ro. pose proof (resolve s sv SlLstat (wn ++ [cln]) H Hpn) as Rn.
-  destruct Hpo as (Hgo & Hko & Hnfo & _). destruct Hpn as (Hgn & Hkn & Hnfn & _).
+  destruct Hpo as (Hgo & Hko & Hnfo). destruct Hpn as (Hgn & Hkn & Hnfn).
   change (follow_of SlLstat) with false in Ro, Rn, Hko, Hkn. change (precise_of SlLstat) with true in Ro, Rn.
   destruct (klookup_pm s sv false wo clo Hgo Hko) as (Hono & Hong & Hpmo).
   destruct (klookup_pm s sv false wn cln Hgn Hkn) as (_ & _ & Hpmn).
@@ -1373,10 +1369,7 @@ Module StepExamples.
   Example tree_step_hyps : step_hyps tree_fs (sv_of adminv).
   Proof. split; [reflexivity|reflexivity|exact tree_wf|exact tree_links_clean|reflexivity]. Qed.
 
-  Ltac path_ok_tac :=
-    split; [good_tac|split; [vm_compute; discriminate|split; [vm_compute; discriminate|]]];
-    let Hs := fresh "Hs" in let He := fresh "He" in
-    intros (Hs & He & _); first [discriminate Hs | vm_compute in He; discriminate He].
+  Ltac path_ok_tac := split; [good_tac|split; vm_compute; discriminate].
 
   (* Lstat of a link to ".."; Stat through an absolute link; Readlink; Mkdir below a directory reached through
      "../../d"; Remove of a dangling link *)
